@@ -4,16 +4,18 @@ set -u
 wt="$1"; id="$2"; prop="$3"; caught="$4"
 cd "$wt" || exit 2
 export CARGO_NET_OFFLINE=true
-with_rc=0; (cd demo && cargo run --offline -q >/tmp/seed_with.log 2>&1) || with_rc=$?
+rundemo() { if [ -f demo/run.sh ]; then sh demo/run.sh; else (cd demo && cargo run --offline -q); fi; }
+with_rc=0; rundemo >/tmp/seed_with.log 2>&1 || with_rc=$?
 tests_with=$(cargo test --offline 2>&1 | grep "test result" | head -1)
 git stash push -q -- src
-without_rc=0; (cd demo && cargo run --offline -q >/tmp/seed_without.log 2>&1) || without_rc=$?
+without_rc=0; rundemo >/tmp/seed_without.log 2>&1 || without_rc=$?
 git stash pop -q
 echo "$id: demo with change rc=$with_rc, without rc=$without_rc; tests with change: $tests_with"
 d=/verif/seeded/$id
 mkdir -p "$d/demo"
 git diff -- src > "$d/patch.diff"
 cp -r demo/Cargo.toml demo/src "$d/demo/" 2>/dev/null
+[ -f demo/run.sh ] && cp demo/run.sh "$d/demo/"
 [ -f demo/build.rs ] && cp demo/build.rs "$d/demo/"
 [ -f seed_notes.md ] && cp seed_notes.md "$d/notes.md"
 python3 - "$d" "$id" "$prop" "$caught" "$with_rc" "$without_rc" "$tests_with" <<'PY'
